@@ -292,6 +292,19 @@ func (mbox *MailboxView) Close() {
 	mbox.tracker.Close()
 }
 
+// Expunge permanently removes the messages marked as deleted. If uids is
+// non-nil, only messages with a UID in the set are removed; the special symbol
+// "*" is resolved first.
+func (mbox *MailboxView) Expunge(w *imapserver.ExpungeWriter, uids *imap.UIDSet) error {
+	if uids != nil {
+		mbox.mutex.Lock()
+		static := mbox.staticNumSet(*uids).(imap.UIDSet)
+		mbox.mutex.Unlock()
+		uids = &static
+	}
+	return mbox.Mailbox.Expunge(w, uids)
+}
+
 func (mbox *MailboxView) Fetch(w *imapserver.FetchWriter, numSet imap.NumSet, options *imap.FetchOptions) error {
 	markSeen := false
 	for _, bs := range options.BodySection {
